@@ -8,9 +8,11 @@ import (
 	"reflect"
 	"sort"
 	"strings"
+	"sync"
 	"testing"
 	"time"
 
+	"go.miragespace.co/specter/spec/chord"
 	"go.miragespace.co/specter/spec/protocol"
 	"go.miragespace.co/specter/spec/rpc"
 	"go.miragespace.co/specter/spec/transport"
@@ -227,10 +229,74 @@ const (
 
 var c25Classes = []string{clNoDelegation, clNoCert, clUnregistered, clBadCN, clRegistered}
 
+// c25Fault is a storage fault active during one call: which KV operations
+// fail, for which keys, how often, and with which error.
+type c25Fault struct {
+	Ops   string `json:"ops"`   // get | reads | all
+	Keys  string `json:"keys"`  // token-key | any
+	Count string `json:"count"` // first | every
+	Err   string `json:"err"`   // plain | chord-retryable | chord-node-gone | deadline
+}
+
+func (f *c25Fault) String() string {
+	if f == nil {
+		return "none"
+	}
+	return f.Ops + "/" + f.Keys + "/" + f.Count + "/" + f.Err
+}
+
+var (
+	c25FaultOps   = []string{"get", "reads", "all"}
+	c25FaultKeys  = []string{"token-key", "any"}
+	c25FaultCount = []string{"first", "every"}
+	c25FaultErrs  = map[string]error{
+		"plain":           errors.New("kv storage fault (generated)"),
+		"chord-retryable": chord.ErrKVStaleOwnership,
+		"chord-node-gone": chord.ErrNodeGone,
+		"deadline":        context.DeadlineExceeded,
+	}
+	c25FaultErrNames = []string{"plain", "chord-retryable", "chord-node-gone", "deadline"}
+)
+
+// install arms the fault on kv and returns a func reporting how often it fired.
+func (f *c25Fault) install(kv *fakeNode) func() int {
+	if f == nil {
+		kv.setFault(nil)
+		return func() int { return 0 }
+	}
+	var mu sync.Mutex
+	fired := 0
+	e := c25FaultErrs[f.Err]
+	kv.setFault(func(op string, key []byte) error {
+		switch f.Ops {
+		case "get":
+			if op != "Get" {
+				return nil
+			}
+		case "reads":
+			if op != "Get" && op != "PrefixContains" && op != "PrefixList" {
+				return nil
+			}
+		}
+		if f.Keys == "token-key" && !strings.HasPrefix(string(key), "/tunnel/client/token/") {
+			return nil
+		}
+		mu.Lock()
+		defer mu.Unlock()
+		if f.Count == "first" && fired > 0 {
+			return nil
+		}
+		fired++
+		return e
+	})
+	return func() int { mu.Lock(); defer mu.Unlock(); return fired }
+}
+
 func TestC25(t *testing.T) {
 	rec := ev.New(t, "C25")
-	rec.Rule("every method of TunnelService and KeylessService (enumerated by reflection) x caller class {no delegation (direct handler + hook call), no certificate, certificate whose token was never registered (fresh / extension / prefix of a registered token / v2 form), certificate without a usable identity, registered (v1, v2, pre-PKI record)} x request body from a generic protoreflect filler (biased to registered hostnames and known node addresses), through the real path DynamicTunnelClient -> transport -> StreamRouter -> http.Server/chi (recoverer, limiter, 1 KiB body limit) -> twirp hook -> handler. First a deterministic sweep of all method x class pairs with an empty body, then rapid-generated cases. Non-trivial: a method outside the {Ping, RegisterIdentity} allow-list whose body is non-empty (or whose request type has no fields at all). Distinct = (method, class, caller variant, body bytes).")
+	rec.Rule("every method of TunnelService and KeylessService (enumerated by reflection) x caller class {no delegation (direct handler + hook call), no certificate, certificate whose token was never registered (fresh / extension / prefix of a registered token / v2 form), certificate without a usable identity, registered (v1, v2, pre-PKI record)} x storage fault {none; Get / all reads / all operations failing, for the token key only or any key, first call or every call, with a plain, retryable-chord, node-gone or deadline error} x request body from a generic protoreflect filler (biased to registered hostnames and known node addresses), through the real path DynamicTunnelClient -> transport -> StreamRouter -> http.Server/chi (recoverer, limiter, 1 KiB body limit) -> twirp hook -> handler. First a deterministic sweep of all method x class pairs with an empty body, then rapid-generated cases. Non-trivial: a method outside the {Ping, RegisterIdentity} allow-list whose body is non-empty (or whose request type has no fields at all). Distinct = (method, class, caller variant, body bytes).")
 	rec.Assume("a refusal by the authentication gate is observable as a twirp `unauthenticated` error on the wire (as the hook and extractAuthenticated produce), and as any error for a handler/hook invoked without a delegation",
+		"under an injected storage fault any refusal code is accepted for callers that must be refused; a registered caller may then be refused too, and a call the gate refuses (unauthenticated) must still change nothing",
 		"the transport has verified the certificate chain; the server sees only the parsed certificate",
 		"KV = real kv/memory store behind a VNode that counts every mutating call (Put, Delete, PrefixAppend, PrefixRemove, Acquire, Renew, Release, Import); 'changes nothing' = zero mutating calls and identical full KV snapshot")
 
@@ -332,7 +398,7 @@ func TestC25(t *testing.T) {
 
 	comboSeen := map[string]int{}
 
-	checkOne := func(t tb, m rpcMethod, class string, variant int, salt string, req proto.Message) {
+	checkOne := func(t tb, m rpcMethod, class string, variant int, salt string, req proto.Message, fault *c25Fault) {
 		body, _ := proto.Marshal(req)
 		if len(body) > 900 {
 			t.Fatalf("harness: generated body of %d bytes would hit the 1 KiB limit", len(body))
@@ -341,7 +407,7 @@ func TestC25(t *testing.T) {
 		hasFields := req.ProtoReflect().Descriptor().Fields().Len() > 0
 		nt := !allow && (len(body) > 0 || !hasFields)
 		vlabel := ""
-		doc := map[string]any{"service": m.Service, "method": m.Name, "class": class, "body_hex": fmt.Sprintf("%x", body), "body": fmt.Sprint(req)}
+		doc := map[string]any{"service": m.Service, "method": m.Name, "class": class, "body_hex": fmt.Sprintf("%x", body), "body": fmt.Sprint(req), "kv_fault": fault.String()}
 
 		var (
 			resp     proto.Message
@@ -352,6 +418,7 @@ func TestC25(t *testing.T) {
 		before := fx.kv.snapshot()
 		fx.kv.takeMutLog()
 		mut0 := fx.kv.mutations.Load()
+		faultFired := fault.install(fx.kv)
 
 		switch class {
 		case clNoDelegation:
@@ -391,9 +458,11 @@ func TestC25(t *testing.T) {
 				break
 			}
 		}
+		fx.kv.setFault(nil)
 		muts := fx.kv.mutations.Load() - mut0
 		mutLog := fx.kv.takeMutLog()
 		after := fx.kv.snapshot()
+		doc["kv_fault_fired"] = faultFired()
 		doc["variant"] = vlabel
 		doc["mutating_kv_calls"] = mutLog
 		code := "ok"
@@ -407,8 +476,15 @@ func TestC25(t *testing.T) {
 		}
 		doc["outcome"] = code
 		comboSeen[m.Name+"|"+class]++
-		rec.Case(nt, fmt.Sprintf("%s|%s|%s|%x", m.Name, class, vlabel, body), func() any { return doc },
-			"method:"+m.Name, "class:"+class, "outcome:"+class+":"+code)
+		flabel := "fault:none"
+		if fault != nil {
+			flabel = "fault:" + fault.Ops + "/" + fault.Count
+			if faultFired() > 0 {
+				rec.Add("cases_with_kv_fault_fired", 1)
+			}
+		}
+		rec.Case(nt, fmt.Sprintf("%s|%s|%s|%x|%s", m.Name, class, vlabel, body, fault), func() any { return doc },
+			"method:"+m.Name, "class:"+class, "outcome:"+class+":"+code, flabel)
 
 		if panicked != nil && !allow {
 			rec.Fail(t, "handler-panics-without-delegation", doc, "%s.%s called without a delegation panicked: %v", m.Service, m.Name, panicked)
@@ -421,12 +497,19 @@ func TestC25(t *testing.T) {
 		}
 		switch class {
 		case clRegistered:
-			// must not be refused by the gate
 			var te twirp.Error
-			if err != nil && errors.As(err, &te) && te.Code() == twirp.Unauthenticated {
-				rec.Fail(t, "registered-caller-refused", doc, "%s by registered caller %s refused: %v", m.Name, vlabel, err)
+			gateRefused := err != nil && errors.As(err, &te) && te.Code() == twirp.Unauthenticated
+			if fault == nil {
+				// healthy storage: must not be refused by the gate
+				if gateRefused {
+					rec.Fail(t, "registered-caller-refused", doc, "%s by registered caller %s refused: %v", m.Name, vlabel, err)
+				}
+				return
 			}
-			return
+			// storage fault: the gate may refuse, but a call it refuses changes nothing
+			if !gateRefused {
+				return
+			}
 		case clNoDelegation:
 			if hookErr == nil {
 				rec.Fail(t, "hook-admits-call-without-delegation", doc, "routing hook admitted %s without a delegation", m.Name)
@@ -439,7 +522,9 @@ func TestC25(t *testing.T) {
 				rec.Fail(t, "unauthenticated-call-not-refused", doc, "%s by %s caller (%s) succeeded: %v", m.Name, class, vlabel, resp)
 			}
 			var te twirp.Error
-			if !errors.As(err, &te) || te.Code() != twirp.Unauthenticated {
+			// with healthy storage the refusal must come from the gate; under a
+			// storage fault any refusal will do
+			if fault == nil && (!errors.As(err, &te) || te.Code() != twirp.Unauthenticated) {
 				rec.Fail(t, "refusal-not-by-authentication-gate", doc, "%s by %s caller (%s): want twirp unauthenticated, got %v", m.Name, class, vlabel, err)
 			}
 		}
@@ -451,7 +536,14 @@ func TestC25(t *testing.T) {
 		}
 	}
 
-	// deterministic sweep: every method x every class (all variants), empty body
+	sweepFaults := []*c25Fault{
+		nil,
+		{Ops: "get", Keys: "token-key", Count: "first", Err: "plain"},
+		{Ops: "get", Keys: "any", Count: "every", Err: "chord-retryable"},
+		{Ops: "reads", Keys: "any", Count: "every", Err: "deadline"},
+		{Ops: "all", Keys: "any", Count: "first", Err: "chord-node-gone"},
+	}
+	// deterministic sweep: every method x every class (all variants) x storage fault, empty body
 	for _, m := range env.methods {
 		for _, class := range c25Classes {
 			nv := 1
@@ -464,7 +556,9 @@ func TestC25(t *testing.T) {
 				nv = len(registered)
 			}
 			for v := 0; v < nv; v++ {
-				checkOne(t, m, class, v, "sweep", m.newRequest())
+				for _, f := range sweepFaults {
+					checkOne(t, m, class, v, "sweep", m.newRequest(), f)
+				}
 			}
 		}
 	}
@@ -476,7 +570,16 @@ func TestC25(t *testing.T) {
 		salt := rapid.StringOfN(rapid.RuneFrom([]rune("abc012")), 0, 3, 3).Draw(t, "salt")
 		req := m.newRequest()
 		fillMessage(t, req.ProtoReflect(), 0, env.dict, m.Name)
-		checkOne(t, m, class, variant, salt, req)
+		var fault *c25Fault
+		if rapid.IntRange(0, 9).Draw(t, "fault?") < 4 {
+			fault = &c25Fault{
+				Ops:   rapid.SampledFrom(c25FaultOps).Draw(t, "fault-ops"),
+				Keys:  rapid.SampledFrom(c25FaultKeys).Draw(t, "fault-keys"),
+				Count: rapid.SampledFrom(c25FaultCount).Draw(t, "fault-count"),
+				Err:   rapid.SampledFrom(c25FaultErrNames).Draw(t, "fault-err"),
+			}
+		}
+		checkOne(t, m, class, variant, salt, req, fault)
 	})
 
 	missing := 0
